@@ -18,7 +18,7 @@ META = dict(
                 "no_edges > #edges; add_edges returns a 0/1 supergraph that is acyclic (closure formula), without two-cycles or "
                 "self-loops, with exactly no_edges more edges, raises ValueError iff no_edges > p(p-1)/2 - #edges and never fails its "
                 "final assertion (i.e. the greedy pass reaches the requested count for EVERY shuffle, up to the complete DAG); the "
-                "caller's matrix is frozen (any write is reported); a second call with the same seed returns the same graph.",
+                "caller's matrix is frozen (any write is reported); a second call with the same seed returns the same graph, also after calls on OTHER graphs of the same size (no state carried between calls).",
     bounds=dict(quick="p <= 3: all DAG patterns, no_edges in 0..(feasible maximum + 1), all choice / shuffle outcomes; p = 4: no_edges <= 1 or infeasible; dtypes float (symbolic weights), int 0/1, bool",
                 thorough="p = 4: remove_edges all counts; add_edges no_edges <= 2, the infeasible counts, and completing the DAG (all counts) for DAGs with at least 4 edges"),
     outside=["p > 4", "add_edges at p = 4 with 3..6 added edges on DAGs with fewer than 4 edges (too many shuffle prefixes)", "which edges are chosen (uniformity)"],
@@ -120,6 +120,44 @@ def _mk(which):
     return fn
 
 
+def h_history(which):
+    """results must not depend on earlier calls with OTHER graphs of the same size: r0 = f(A, k, s); then calls on the
+    empty and on a complete DAG of that size; then f(A, k, s) again must return the same graph"""
+    def fn(ctx):
+        e = ctx.eng
+        ut = ctx.mod('sempler.utils')
+        p = ctx.params['p']
+        rows, pat, A = _input(ctx)
+        ne = sum(sum(r) for r in pat)
+        feas = ne if which == 'remove' else p * (p - 1) // 2 - ne
+        k = e.int('no_edges')
+        e.assume(k >= 0)
+        e.assume(k <= feas)
+        seed = e.int('seed')
+        e.assume(seed >= 0)
+        f = ut.remove_edges if which == 'remove' else ut.add_edges
+        cl = []
+        try:
+            r0 = f(A, k, random_state=seed)
+            empty = np.zeros((p, p))
+            full = np.triu(np.ones((p, p)), k=1)
+            for other, kk in ((full, 0), (empty, 0), (full, 1 if which == 'remove' and p > 1 else 0)):
+                try:
+                    f(other, kk, random_state=seed)
+                except ValueError:
+                    pass
+            r1 = f(A, k, random_state=seed)
+            cl.append(('the same seeded call after calls on OTHER graphs of the same size returns the same graph',
+                       G.And([G.T(r0[i, j] == r1[i, j]) for i in range(p) for j in range(p)]) if r0.shape == r1.shape else False))
+            outcome = 'returned'
+        except Exception as ex:
+            outcome = 'raised ' + type(ex).__name__
+            cl.append(('feasible requests must not raise, whatever was called before (%s: %s)' % (type(ex).__name__, str(ex)[:80]), False))
+        return PathResult(outcome, cl, inputs=dict(which=which, A=rows, dtype=ctx.params['dtype'], no_edges=k, seed=seed, rng=[]), call='history',
+                          info=dict(which=which, pattern=[list(r) for r in pat]))
+    return fn
+
+
 def _realA(inp):
     import numpy
     dt = inp['dtype']
@@ -191,8 +229,34 @@ def _concrete_bad(inp, out):
     return bad
 
 
+def _replay_history(inp):
+    import numpy
+    s = real_sempler()
+    A = _realA(inp)
+    p = len(A)
+    f = s.utils.remove_edges if inp['which'] == 'remove' else s.utils.add_edges
+    k = int(unj(inp['no_edges']))
+    bad = []
+    for sd in (int(unj(inp['seed'])) % (2 ** 32), 0, 1, 42):
+        try:
+            r0 = f(A.copy(), k, random_state=sd)
+            for other, kk in ((numpy.triu(numpy.ones((p, p)), 1), 0), (numpy.zeros((p, p)), 0)):
+                try:
+                    f(other, kk, random_state=sd)
+                except ValueError:
+                    pass
+            r1 = f(A.copy(), k, random_state=sd)
+            if not numpy.array_equal(r0, r1):
+                bad.append('random_state=%d: %s before, %s after calls on other graphs' % (sd, r0.tolist(), r1.tolist()))
+        except Exception as ex:
+            bad.append('random_state=%d: raised %s' % (sd, type(ex).__name__))
+    return (len(bad) > 0, '%s_edges(A=%s, no_edges=%d) repeated after calls on other graphs of the same size: %s' % (inp['which'], A.tolist(), k, '; '.join(bad[:2]) or 'same result'))
+
+
 def replay(rec):
     inp = rec['inputs']
+    if rec['call'] == 'history':
+        return _replay_history(inp)
     try:
         out = _real(inp)
     except rngscript.ScriptError as ex:
@@ -224,6 +288,9 @@ def obligations(tier):
             ob.append(Obligation('%s_p%d' % (which, p), _mk(which), cubes,
                                  "%s_edges on every DAG pattern on %d nodes (symbolic weights / 0-1 int / bool), symbolic no_edges and seed, every generator outcome" % (which, p),
                                  expect=('returned', 'raised ValueError'), weight=p * (20 if which == 'add' else 5)))
+        ob.append(Obligation('%s_history_p3' % which, h_history(which), [dict(c, dtype='float') for c in I.dag_pair_cubes(3, 2)],
+                             "%s_edges: the same seeded call before and after calls on other graphs of the same size" % which,
+                             expect=('returned',), weight=30))
         if tier == 'quick':
             c4 = [dict(c, dtype='float', max_k=1) for c in I.dag_pair_cubes(4, 3)]
             ob.append(Obligation('%s_p4' % which, _mk(which), c4, "%s_edges on every DAG pattern on 4 nodes, no_edges <= 1 or infeasible" % which,
